@@ -616,6 +616,11 @@ func runWith(cs Case, class string, given *cfg.Config, extra map[string]interfac
 			}
 		}
 	}
+	// accessors of a freshly built multi-group profile: whichever accessor is called FIRST must already answer for
+	// the heaviest group (entries[0]; every accessor initialises the nil cursor), and the others agree afterwards
+	if r.Build.Class == 0 && r.Dump.Kind == "group" && len(r.Dump.Entries) > 1 && r.Dump.Sel != 0xAC && r.Dump.Sel != 0xAE {
+		accessorOrders(c, &r.Dump.Entries[0], fail)
+	}
 	if r.Groups.Class == 0 && len(c) > 0 {
 		var j []byte
 		ok := true
@@ -671,6 +676,90 @@ func runWith(cs Case, class string, given *cfg.Config, extra map[string]interfac
 	}
 	sb.WriteString(" " + vh.List(items) + " " + digRes(r.Marshal, r.MarshalB))
 	out.Add(sb.String(), class, len(c) > 0, desc)
+}
+
+var accNames = []string{"Sleep", "Jitter", "KillDate", "WorkHours", "TrustedKey", "Next"}
+
+// accessorOrders builds c once per accessor, calls that accessor first and then all the others, and compares every
+// answer with the heaviest entry e of the dump.
+func accessorOrders(c cfg.Config, e *cfg.VProf, fail func(what, key string)) {
+	var pk data.PublicKey
+	pk[0], pk[3] = 0x5A, 1
+	trusted := len(e.Keys) == 0
+	for _, k := range e.Keys {
+		if k == pk.Hash() {
+			trusted = true
+		}
+	}
+	call := func(p cfg.Profile, a int) string {
+		switch a {
+		case 0:
+			if v := int64(p.Sleep()); v != e.Sleep {
+				return fmt.Sprintf("Sleep() = %d, want %d", v, e.Sleep)
+			}
+		case 1:
+			if v := int64(p.Jitter()); v != e.Jitter {
+				return fmt.Sprintf("Jitter() = %d, want %d", v, e.Jitter)
+			}
+		case 2:
+			if t, ok := p.KillDate(); ok != e.KDS || t.Unix() != e.Kill {
+				return fmt.Sprintf("KillDate() = (%d,%v), want (%d,%v)", t.Unix(), ok, e.Kill, e.KDS)
+			}
+		case 3:
+			w := p.WorkHours()
+			if (w == nil) != (e.Work == nil) {
+				return fmt.Sprintf("WorkHours() nil=%v, want nil=%v", w == nil, e.Work == nil)
+			}
+			if w != nil && (int64(w.Days) != e.Work[0] || int64(w.StartHour) != e.Work[1] || int64(w.StartMin) != e.Work[2] || int64(w.EndHour) != e.Work[3] || int64(w.EndMin) != e.Work[4]) {
+				return fmt.Sprintf("WorkHours() = %+v, want %v", *w, e.Work)
+			}
+		case 4:
+			if v := p.TrustedKey(pk); v != trusted {
+				return fmt.Sprintf("TrustedKey() = %v, want %v", v, trusted)
+			}
+		case 5:
+			h, _, _ := p.Next()
+			ok := len(e.Hosts) == 0 && h == ""
+			for _, x := range e.Hosts {
+				if x == h {
+					ok = true
+				}
+			}
+			if !ok {
+				return fmt.Sprintf("Next() host %q is not a host of the heaviest group", clipS(h))
+			}
+		}
+		return ""
+	}
+	for first := range accNames {
+		o := cfgx.GuardFast(func() error {
+			p, err := c.Build()
+			if err != nil || p == nil {
+				return err
+			}
+			if m := call(p, first); m != "" {
+				fail("called first on a fresh build: "+m, "accessor-first-"+accNames[first])
+			}
+			for a := range accNames {
+				if a != first {
+					if m := call(p, a); m != "" {
+						fail("after "+accNames[first]+"(): "+m, "accessor-after-"+accNames[first]+"-"+accNames[a])
+					}
+				}
+			}
+			return nil
+		})
+		if o.Class == 2 {
+			fail("accessor sequence starting with "+accNames[first]+" panicked: "+o.Msg, "accessor-panic-"+accNames[first])
+		}
+	}
+}
+
+func clipS(s string) string {
+	if len(s) > 40 {
+		return s[:40] + "..."
+	}
+	return s
 }
 
 func firstDiff(a, b []byte) int {
@@ -1094,6 +1183,20 @@ func main() {
 		s2 := s
 		s2.Hdrs = append(append([][2]Arg{}, s.Hdrs...), [2]Arg{lit("K255"), lit("x")})
 		reg = append(reg, Case{Focus: "wc2-256-headers", Groups: [][]Spec{{S("Jitter", 2), s2, SB("Host", nil, lit("h"))}}})
+	}
+	{
+		h := func(kv ...string) Spec {
+			s := SB("WC2", nil, lit("/a"), lit(""), lit(""))
+			for i := 0; i+1 < len(kv); i += 2 {
+				s.Hdrs = append(s.Hdrs, [2]Arg{lit(kv[i]), lit(kv[i+1])})
+			}
+			return s
+		}
+		for _, s := range []Spec{h("", "v"), h("", ""), h("k", ""), h("a", "1", "", "2", "c", "3"), h("a", "", "b", "", "c", ""), h("k", "v", "kk", "vv"),
+			SB("DNS", nil, lit("")), SB("DNS", nil, lit("a.b"), lit(""), lit("c.d")), SB("DNS", nil, lit(""), lit(""))} {
+			reg = append(reg, Case{Focus: "empty-field", Groups: [][]Spec{{s}}})
+			reg = append(reg, Case{Focus: "empty-field", Groups: [][]Spec{{SB("Host", nil, lit("h:1")), s, S("Jitter", 4)}}})
+		}
 	}
 	for _, c := range reg {
 		run(c, "regression")
